@@ -404,9 +404,18 @@ Piece(sp, f, x) ==
          IN IF M = QZero \/ Cardinality(A) # 1 THEN <<Edge>>
             ELSE LET j == CHOOSE j \in A : TRUE IN <<2 * j * SgnI(x[j])>>
     [] f.op = "Huber" ->
-         [i \in 1..Len(x) |-> IF QLt(QAbs(x[i]), f.s) THEN 0
-                              ELSE IF QAbs(x[i]) = f.s THEN Edge ELSE 2 * SgnI(x[i])]
+         IF IsVF(sp) THEN [i \in 1..NGrp(sp) |-> IF QLt(GSq(sp, x, i), QSq(f.s)) THEN 0
+                                                  ELSE IF GSq(sp, x, i) = QSq(f.s) THEN Edge ELSE 2]
+         ELSE [i \in 1..Len(x) |-> IF QLt(QAbs(x[i]), f.s) THEN 0
+                                   ELSE IF QAbs(x[i]) = f.s THEN Edge ELSE 2 * SgnI(x[i])]
     [] f.op \in {"L2sq", "Quad", "Const"} -> <<>>
+    \* smooth (not polynomial) pieces: used by the relational clauses only
+    [] f.op = "L2" -> IF RIsZero(x) THEN <<Edge>> ELSE <<>>
+    [] f.op = "GroupL1" -> [i \in 1..NGrp(sp) |-> IF GSq(sp, x, i) = QZero THEN Edge ELSE 1]
+    [] f.op = "KL"   -> IF \E i \in 1..Len(x) : x[i][1] <= 0 THEN <<Edge>> ELSE <<>>
+    [] f.op = "KLcc" -> IF \E i \in 1..Len(x) : QGe(x[i], QOne) THEN <<Edge>> ELSE <<>>
+    [] f.op = "Quot" -> LET b == Val(sp, Arg2(f), x) IN
+                        (IF b = QZero \/ b = Inf THEN <<Edge>> ELSE <<>>) \o Piece(sp, Arg(f), x) \o Piece(sp, Arg2(f), x)
     [] f.op = "Translate" -> Piece(sp, Arg(f), RSub(x, f.u))
     [] f.op = "ArgScale"  -> Piece(sp, Arg(f), RScal(f.s, x))
     [] f.op = "RVec"      -> Piece(sp, Arg(f), RMul(f.v, x))
@@ -440,7 +449,15 @@ Differentiable(sp, f, x) ==
                           /\ Differentiable(Part(sp, 2), Arg2(f), PartVec(sp, x, 2))
     [] OTHER -> FALSE
 
-StencilH(m) == IF m = 1 THEN Q(1, 16) ELSE Q(1, 4)      \* wide enough to keep 4th powers inside 32 bits
+\* x and x +- h d lie strictly inside one smooth piece of f (pieces are convex or complements of balls;
+\* h is small against the lattice): the central-difference error of the VALUES then decays like h^2
+SmoothAlong(sp, f, x, d, h) ==
+  LET pc == Piece(sp, f, x) IN
+  /\ \A j \in 1..Len(pc) : pc[j] # Edge
+  /\ Piece(sp, f, RAdd(x, RScal(h, d))) = pc
+  /\ Piece(sp, f, RSub(x, RScal(h, d))) = pc
+
+StencilH(m) == IF m = 1 THEN Q(1, 16) ELSE Q(1, 2)      \* wide enough to keep 4th powers inside 32 bits
 \* directional derivative of x |-> Val(f, x) along d, or NaN when the stencil is not exact here
 DirDeriv(sp, f, x, d) ==
   LET deg == PolyDeg(sp, f)
